@@ -92,7 +92,7 @@ def gen_world(rng, flavour, tiny=False, allow_running=True, force=None):
     if "release_tg" in force:
         release_tg = force["release_tg"] and flavour == "gurobi"
     cfg = {"flavour": flavour, "enforce": force.get("enforce", rng.random() < 0.7),
-           "retract": rng.random() < 0.5, "disc": disc, "release_tg": release_tg,
+           "retract": force.get("retract", rng.random() < 0.5), "disc": disc, "release_tg": release_tg,
            "plan_ahead": rng.choice([-1, -1, -1, rng.randint(2, 10)])}
     nw = rng.choice([1, 1, 2] if tiny else [1, 2, 2, 3])
     workers = []
@@ -145,7 +145,13 @@ def gen_world(rng, flavour, tiny=False, allow_running=True, force=None):
         state_of = {}
         for x in names:     # names are in topological order
             ss = [strat()]
-            if rng.random() < 0.45:
+            if force.get("sched_fast_parent") and edges[x]:
+                # a parent with a fast and a much slower strategy on the same resources (placed earlier with the fast one)
+                fast = rng.choice([1, 2])
+                ss = [[fast, [["CPU", 1]]], [fast + rng.choice([2, 3, 5]), [["CPU", 1]]]]
+                if rng.random() < 0.5:
+                    ss.reverse()
+            elif rng.random() < 0.45:
                 s2 = strat()
                 if rng.random() < 0.15:       # a twin: same runtime, superset of the resources
                     s2 = [ss[0][0], ss[0][1] + [[r, 1] for r in RES if r not in [q[0] for q in ss[0][1]]]]
@@ -160,15 +166,21 @@ def gen_world(rng, flavour, tiny=False, allow_running=True, force=None):
             else:
                 choices = ["virtual"] * 4 + (["scheduled"] if release_tg else [])
             st = rng.choice(choices)
+            if force.get("sched_fast_parent") and edges[x] and all(s_ == "completed" for s_ in pstates):
+                st = "scheduled"
             if st == "completed" and not edges[x]:
                 st = "released"
             t["deadline"] = max(0, now + rng.choice([-2, 0, 1, 2, 3, 4, 5, 6, 8, 10, 12]))
+            if force.get("sched_fast_parent"):
+                t["deadline"] = now + rng.choice([8, 10, 12])
             if st in ("released", "scheduled", "running", "completed"):
                 t["release"] = rng.randint(0, now)
             elif rng.random() < 0.3:
                 t["release"] = now + rng.randint(0, 5)      # a VIRTUAL task with a known future release
             if st in ("scheduled", "running", "completed"):
                 si = rng.randrange(len(ss))
+                if force.get("sched_fast_parent") and st == "scheduled" and edges[x]:
+                    si = min(range(len(ss)), key=lambda j: ss[j][0])
                 wn = rng.choice(workers)["name"]
                 rt = ss[si][0]
                 if st == "scheduled":
@@ -216,12 +228,12 @@ def partial_parents(inst):
 # --------------------------------------------------------------------------
 # running the implementation
 # --------------------------------------------------------------------------
-def run_worlds(worlds, chunk=40):
+def run_worlds(worlds, chunk=40, probe=None):
     out = []
     from concurrent.futures import ThreadPoolExecutor
     parts = [worlds[i:i + chunk] for i in range(0, len(worlds), chunk)]
     with ThreadPoolExecutor(max_workers=8) as ex:
-        for r in ex.map(lambda p: core.run_impl("tetri.py", {"cases": p}, timeout=900)["results"], parts):
+        for r in ex.map(lambda p: core.run_impl("tetri.py", {"cases": p, "probe": probe}, timeout=900)["results"], parts):
             out.extend(r)
     return out
 
@@ -243,6 +255,44 @@ def expected_readback(inst, res):
         p = ps[0]
         out.append([i, [p["worker"], p["strat"], p["start"]] if p["placed"] else []])
     return out, None
+
+
+def probe_spec(ctx, kinds, n=None):
+    """Bounded adversarial probing of the live model (harness/impl/tetri.py:run_probes): a few re-optimisations per world,
+    the choices inside a world are drawn from a seed taken from ctx.rng."""
+    return {"kinds": list(kinds), "max": n if n is not None else (2 if ctx.tier == "quick" else 4),
+            "seed": ctx.rng.randrange(1 << 30)}
+
+
+def probe_readback(inst, probe):
+    """The Placements get_placements would build from a probe's values: the first cell (worker, time, strategy order) at 1."""
+    by = {}
+    for k, v in probe["values"]:
+        if k[0] == 0 and v == 1:
+            by.setdefault(k[1], []).append((k[2], k[3], k[4]))
+    out = []
+    for i, t in enumerate(inst["tasks"]):
+        if t["state"][0] == "running":
+            continue
+        c = sorted(by.get(i, []))
+        out.append([i, [c[0][0], c[0][2], c[0][1]] if c else []])
+    return out
+
+
+def all_plans_of(results, skip=None, probe_kinds=None, with_solver=True):
+    """(world index, instance, plan as [[task, [w, s, t] or []]], origin) for the solver's own answer and every probe."""
+    for i, r in enumerate(results):
+        if "inst" not in r or r.get("placements") is None or "unsupported" in r:
+            continue
+        if skip and skip(r["inst"]):
+            continue
+        if with_solver and "values" in r:
+            exp, err = expected_readback(r["inst"], r)
+            if not err:
+                yield i, r["inst"], exp, "schedule()"
+        for pb in r.get("probes", []):
+            if probe_kinds is None or pb["kind"] in probe_kinds:
+                yield i, r["inst"], probe_readback(r["inst"], pb), "probe %s: %s (objective %s)" % (pb["kind"], pb["desc"], pb["obj"])
 
 
 def generate(ctx, n_gurobi, n_cplex, tiny=False, allow_running=True, force=None):
@@ -318,33 +368,29 @@ def stream_readback(ctx, worlds, results, tag="S-readback"):
         ctx.broken.append({"kind": "correspondence", "name": tag, "detail": str(e)[-800:]})
 
 
-def monitor_plans(ctx, worlds, results, tag, fn, what, skip=None):
-    """Apply a PlanSpec monitor `fn : tinst * plan -> bool` to the Placements returned by the implementation."""
+def monitor_plans(ctx, worlds, results, tag, fn, what, skip=None, probe_kinds=None):
+    """Apply a PlanSpec monitor `fn : tinst * plan -> bool` to the Placements returned by the implementation and to the
+    plans read from the adversarial probes of the live model (every assignment the live system admits)."""
     cases = []
     where = []
-    for i, (w, r) in enumerate(zip(worlds, results)):
-        if "inst" not in r or r.get("placements") is None or "unsupported" in r:
-            continue
-        if skip and skip(r["inst"]):
-            continue
-        exp, err = expected_readback(r["inst"], r)
-        if err:
-            continue
+    for i, inst, exp, origin in all_plans_of(results, skip, probe_kinds):
         plan = glist(["(mkPl %s %s %s %s)" % (gz(t), gz(p[0]), gnat(p[1]) if p[1] >= 0 else gnat(99), gz(p[2]))
                       for t, p in exp if p])
-        cases.append("(%s, %s)" % (g_inst(r["inst"]), plan))
-        where.append(i)
+        cases.append("(%s, %s)" % (g_inst(inst), plan))
+        where.append((i, exp, origin))
     if not cases:
         return 0
     try:
         bad = ctx.monitor_stream(tag, HEADER, "tinst * plan", fn, cases, shard=25)
         for b in bad[:3]:
-            i = where[b]
+            i, exp, origin = where[b]
             ctx.violation("%s%d" % (tag.replace("-", ""), i),
-                          {"stream": tag, "world": worlds[i], "instance": results[i]["inst"],
-                           "placements": results[i]["placements"], "what": what})
+                          {"stream": tag, "world": worlds[i], "instance": results[i]["inst"], "origin": origin,
+                           "plan [task, [worker, strategy, start]]": exp,
+                           "placements_returned_by_schedule": results[i]["placements"], "what": what})
     except core.ModelEvalError as e:
         ctx.broken.append({"kind": "monitor", "name": tag, "detail": str(e)[-800:]})
+    ctx.cov.setdefault("input_distribution", {})["probe_plans"] = sum(len(r.get("probes", [])) for r in results)
     return len(cases)
 
 
@@ -372,15 +418,21 @@ def monitor_wf(ctx, worlds, results):
 
 def py_monitor_fallback(ctx, worlds, results):
     """Pure-Python search for a failing input, used when the Coq side is broken: joint capacity at every
-    integer instant, deadlines, precedence (chosen runtime), start >= now, one answer per task."""
-    for i, (w, r) in enumerate(zip(worlds, results)):
-        if "inst" not in r or r.get("placements") is None or "values" not in r:
-            continue
-        inst = r["inst"]
-        msg = py_check(inst, r)
+    integer instant, deadlines, precedence (chosen runtime), start >= now, one answer per task — on the solver's own
+    answer and on every adversarial probe of the live model."""
+    for i, r in enumerate(results):
+        if "inst" in r and r.get("placements") is not None and "values" in r:
+            exp, err = expected_readback(r["inst"], r)
+            if err:
+                ctx.violation("py%d" % i, {"stream": "python-fallback", "world": worlds[i], "instance": r["inst"],
+                                           "placements": r["placements"], "what": err})
+                return True
+    for i, inst, exp, origin in all_plans_of(results):
+        msg = py_check_exp(inst, exp)
         if msg:
-            ctx.violation("py%d" % i, {"stream": "python-fallback", "world": w, "instance": inst,
-                                       "placements": r["placements"], "what": msg})
+            ctx.violation("py%d" % i, {"stream": "python-fallback", "world": worlds[i], "instance": inst, "origin": origin,
+                                       "plan [task, [worker, strategy, start]]": exp,
+                                       "placements_returned_by_schedule": results[i]["placements"], "what": msg})
             return True
     return False
 
@@ -389,6 +441,10 @@ def py_check(inst, r):
     exp, err = expected_readback(inst, r)
     if err:
         return err
+    return py_check_exp(inst, exp)
+
+
+def py_check_exp(inst, exp):
     now = inst["now"]
     occ = []
     placed = {}
@@ -416,11 +472,13 @@ def py_check(inst, r):
                 pt = inst["tasks"][q]
                 if pt["state"][0] == "running":
                     if p[2] < now + pt["state"][3]:
-                        return "child starts before its running parent's expected finish"
+                        return "child %s starts at %d before its running parent's expected finish %d" % (
+                            inst["tasks"][i]["name"], p[2], now + pt["state"][3])
                 elif q not in placed:
-                    return "child placed although a co-decided parent is not"
+                    return "child %s placed although its co-decided parent %s is not" % (inst["tasks"][i]["name"], pt["name"])
                 elif p[2] < placed[q][0] + placed[q][1]:
-                    return "child starts before its parent's planned end"
+                    return "child %s starts at %d before its parent %s's planned end %d (start %d + chosen runtime %d)" % (
+                        inst["tasks"][i]["name"], p[2], pt["name"], placed[q][0] + placed[q][1], placed[q][0], placed[q][1])
     caps = {w["idx"]: dict(w["total"]) for w in inst["workers"]}
     hi = max([e for _, _, e, _ in occ] + [now])
     for tau in range(now, hi + 1):
@@ -501,7 +559,9 @@ def run(ctx):
     built = prepare(ctx, PROPS)
     ng, nc = sizes(ctx)
     worlds = generate(ctx, ng, nc)
-    results = run_worlds(worlds)
+    results = run_worlds(worlds, probe=probe_spec(ctx, ["c10"]))
+    ctx.rules.append("adversarial probes: the live model built by the real schedule() is re-optimised (a few times per world) to "
+                     "maximise the load of one (worker, resource, instant); every assignment found goes through the same monitors")
     ctx.rules.append(
         "worlds: 1-3 workers (CPU 1-3, GPU 0-2, one or two pools), 1-4 tasks in singleton/chain/join/fork graphs with 1-2 "
         "strategies (incl. twins and zero requests), states virtual/released/scheduled/running/completed, now in {0,1,3,6}, "
